@@ -6,6 +6,7 @@ import (
 	"fmt"
 	"go/token"
 	"os"
+	"os/exec"
 	"path/filepath"
 	"sort"
 	"strconv"
@@ -35,7 +36,15 @@ type PropConfig struct {
 		Bound string `json:"bound"`
 		What  string `json:"what"`
 	} `json:"bounded,omitempty"`
-	Assumptions     []string `json:"assumptions,omitempty"`
+	Assumptions []string `json:"assumptions,omitempty"`
+	// Bounded validations of assumed contracts (Go tests injected with -overlay; thorough tier)
+	Validations []struct {
+		Name string `json:"name"`
+		Pkg  string `json:"pkg"`
+		File string `json:"file"`
+		Run  string `json:"run"`
+		What string `json:"what"`
+	} `json:"validations,omitempty"`
 	QuickTimeout    int      `json:"quick_timeout,omitempty"`
 	ThoroughTimeout int      `json:"thorough_timeout,omitempty"`
 	NotCovered      []string `json:"not_covered,omitempty"`
@@ -256,6 +265,22 @@ func cmdCheck(args []string) int {
 			}
 		}
 	}
+	// bounded validations of assumed contracts (never counted as proof)
+	var boundedRuns []map[string]any
+	for _, v := range cfg.Validations {
+		if *tier != "thorough" {
+			boundedRuns = append(boundedRuns, map[string]any{"name": v.Name, "what": v.What, "status": "not run in quick tier"})
+			continue
+		}
+		ok, out := runOverlayTest(P.repo, scratch, v.Pkg, v.File, v.Run)
+		st := "passed"
+		if !ok {
+			st = "FAILED"
+			exit = 1
+			report("validation/"+v.Name, v.File, "bounded validation of an assumed contract failed: "+v.What, "", out, "")
+		}
+		boundedRuns = append(boundedRuns, map[string]any{"name": v.Name, "what": v.What, "status": st, "output": firstLines(out, 6)})
+	}
 	sort.Slice(slowest, func(i, j int) bool { return slowest[i].T > slowest[j].T })
 	if len(slowest) > 5 {
 		slowest = slowest[:5]
@@ -306,6 +331,7 @@ func cmdCheck(args []string) int {
 			"inlined_callees":          keys(inlined),
 			"vacuity":                  vac,
 			"bounded":                  cfg.Bounded,
+			"bounded_validations":      boundedRuns,
 			"known_findings_printed":   kfPrinted,
 			"contract_files":           P.reg.Files,
 		},
@@ -331,4 +357,20 @@ func cmdCheck(args []string) int {
 // Returns true if a concrete failing input was reproduced.
 func replayCounterexample(P *Program, id, obl, fn, model string, rp map[string]any) bool {
 	return false
+}
+
+// runOverlayTest runs one Go test file against /repo without writing into it.
+func runOverlayTest(repo, scratch, pkg, file, run string) (bool, string) {
+	dst := filepath.Join(repo, strings.TrimPrefix(pkg, "./"), "zz_verif_overlay_test.go")
+	ov := map[string]any{"Replace": map[string]string{dst: file}}
+	data, _ := json.Marshal(ov)
+	ovf := filepath.Join(scratch, "overlay_"+shortName(run, 40)+".json")
+	if err := os.WriteFile(ovf, data, 0o644); err != nil {
+		return false, err.Error()
+	}
+	cmd := exec.Command("go", "test", "-overlay", ovf, "-vet=off", "-timeout", "120s", "-count=1", "-v", "-run", "^"+run+"$", pkg)
+	cmd.Dir = repo
+	cmd.Env = goEnv()
+	out, err := cmd.CombinedOutput()
+	return err == nil, string(out)
 }
